@@ -24,8 +24,9 @@ from ..vhdl.parser import Unsupported, VhdlSyntaxError
 
 LEVEL = "exploration"
 
-FORMS = ["conc", "next", "seq", "var", "value", "push", "pushprop", "slice", "elem", "port", "ret", "ifexp"]
-LIT_FORMS = ["conc", "seq", "var", "push", "init", "slice", "port", "ret", "ifexp"]
+FORMS = ["conc", "next", "seq", "var", "value", "push", "pushprop", "slice", "elem", "port", "ret", "ifexp", "linit_sig", "linit_var",
+         "view", "view_seq"]
+LIT_FORMS = ["conc", "seq", "var", "push", "init", "slice", "port", "ret", "ifexp", "view"]
 
 
 def types(maxw):
@@ -45,7 +46,7 @@ def width(t):
 
 
 def is_vec(t):
-    return len(t) == 2
+    return t[0] in ("BitVector", "Unsigned", "Signed")
 
 
 LITS = [("int", v) for v in (-2, -1, 0, 1, 2, 3, 4, 7, 8)] + [("Null",), ("Full",), ("True",), ("False",)]
@@ -151,7 +152,12 @@ def render(s, t, form):
         L.append(f"    src = Port.input({tsrc(s)})")
     L.append(f"    alt = Port.input({T})")
     dflt = ", default=Null" if form in ("push", "pushprop") else ""
-    if form == "slice":
+    view = None
+    if form in ("view", "view_seq"):
+        # the target is a typed view of a port declared with another vector kind of the same width
+        decl, view = {"Signed": ("Unsigned", "signed"), "Unsigned": ("Signed", "unsigned"), "BitVector": ("Unsigned", "bitvector")}[t[0]]
+        L.append(f"    tgt = Port.output({decl}[{wt}])")
+    elif form == "slice":
         L.append(f"    big = Port.output(BitVector[{wt + 2}])")
     elif form == "elem":
         L.append("    big = Port.output(BitVector[3])")
@@ -176,6 +182,14 @@ def render(s, t, form):
         L += [seq, "        def proc():", f"            self.tgt.push = {src}"]
     elif form == "init":
         L += [f"        s = Signal[{T}]({src})", con, "        def logic():", "            self.tgt <<= s"]
+    elif form == "linit_sig":
+        L += [seq, "        def proc():", f"            s = Signal[{T}]({src})", "            self.tgt <<= s"]
+    elif form == "linit_var":
+        L += [seq, "        def proc():", f"            v = Variable[{T}]({src})", "            self.tgt <<= v"]
+    elif form == "view":
+        L += [con, "        def logic():", f"            self.tgt.{view} <<= {src}"]
+    elif form == "view_seq":
+        L += [seq, "        def proc():", f"            self.tgt.{view} <<= {src}"]
     elif form == "slice":
         L += [con, "        def logic():", f"            self.big[{wt}:1] <<= {src}", "            self.big[0] <<= False",
               f"            self.big[{wt + 1}] <<= False"]
@@ -199,6 +213,8 @@ def applicable(s, t, form):
         return t == ("Bit",)
     if form == "init":
         return s[0] in ("int", "Null", "Full", "True", "False")
+    if form in ("view", "view_seq"):
+        return is_vec(t)
     if form in ("push", "pushprop") and t == ("bool",):
         return True
     return True
@@ -222,7 +238,7 @@ def analyse(s, t, form):
         out["problems"].append(("static-" + d.findings[0].rule, repr(d.findings[0])))
         return out
     wt = width(t)
-    clocked = form in ("seq", "var", "value", "push", "pushprop")
+    clocked = form in ("seq", "var", "value", "push", "pushprop", "linit_sig", "linit_var", "view_seq")
     is_lit = s[0] in ("int", "Null", "Full", "True", "False")
     sim = d.sim(init=dict(clk=0, c=1))
     for raw in src_values(s):
